@@ -585,6 +585,76 @@ def c15_s(run, fx, floors=True):
         run.floor(rule, "header writers", n, 2)
 
 
+# ---- C15-v: the OS/2 version the writer announces matches the parts it writes -----------------------------------------------------------
+def c15_v(run, fx):
+    import fnread
+    import pathwalk as pw
+    rule = "C15-v"
+    run.rule(rule, "OS/2 writer: the reader takes the version number as the list of parts that follow (version >= 1: the code page ranges, >= 2: sxHeight .. "
+                   "usMaxContext, >= 5: the optical point sizes), so the version the writer announces is decided on the presence of each of the optional "
+                   "parts it writes: none -> 0, version1 -> 1, version1 + version2to4 -> 2 to 4, all three -> 5. The decision in front of the first write "
+                   "is read as a decision list over the three presence tests and evaluated for the four well-formed combinations")
+    bs = [b for b in fx.bodies if b.path.startswith("<tables::os2::Os2 as binary::write::WriteBinary<&tables::os2::Os2>>::write") and b.kind != "Closure"]
+    if len(bs) != 1:
+        return run.anchor_missing(rule, "<Os2 as WriteBinary<&Os2>>::write")
+    b = bs[0]
+    writes = [bi for bi, t in b.calls() if (t["callee"].get("path") or "") == "binary::write::WriteBinary::write"]
+    if not writes:
+        return run.anchor_missing(rule, "first write of the OS/2 writer")
+    first = min(writes, key=lambda bi: (0 if b.dominates(bi, writes[-1]) else 1, bi))
+    first = [bi for bi in writes if all(b.dominates(bi, o) for o in writes)]
+    if not first:
+        return run.fail(rule, "os2-version-shape", "the OS/2 writer has no first write that dominates the others: the version decision is not decided", "%s:%s" % (b.file, b.line))
+    first = first[0]
+    w = pw.Walk(b, None, [first], start=0)
+    if w.dropped or not w.paths:
+        return run.fail(rule, "os2-version-shape", "the version decision of the OS/2 writer cannot be read as a decision list (%s)" % ("; ".join(w.dropped) or "no path"), "%s:%s" % (b.file, b.line))
+    t = b.term(first)
+
+    class Ev(fnread.GridEval):
+        def atom(self, tm):
+            # presence of an optional part: Option::is_some(&table.versionK) or the discriminant of table.versionK
+            inner = tm[1] if tm[0] == "discr" else (tm[2][0] if tm[0] == "call" and str(tm[1] or "").endswith(("::is_some", "::is_none")) and tm[2] else None)
+            if inner is None:
+                return None
+            txt = sym.show(inner, 0)
+            for k in ("version5", "version2to4", "version1"):
+                if txt.endswith("." + k) or ("." + k) in txt:
+                    v = self.a[k]
+                    if tm[0] == "call" and str(tm[1]).endswith("::is_none"):
+                        v = 1 - v
+                    return bool(v) if tm[0] == "call" else Fraction(v)
+            return None
+    from fractions import Fraction
+    want = {(0, 0, 0): {0}, (1, 0, 0): {1}, (1, 1, 0): {2, 3, 4}, (1, 1, 1): {5}}
+    bad = []
+    try:
+        for (v1, v2, v5), ok in want.items():
+            ev = Ev({"version1": v1, "version2to4": v2, "version5": v5})
+            hits = [env for conds, env, end, kind in w.paths if kind == "stop" and all(ev.holds(c) for c in conds)]
+            if len(hits) != 1:
+                raise fnread.Undecided("%d paths apply" % len(hits))
+            self_env = hits[0]
+            st = pw.Walk.__new__(pw.Walk)
+            st.b, st.env, st.writes = b, dict(self_env), []
+            for s_ in b.stmts(first):          # the walk stops on entry to the block: run its statements up to the call
+                if s_["k"] == "assign":
+                    st.write(s_["p"], st.rvalue(s_["rv"]))
+            val = st.op(t["args"][1])
+            got = ev.ev(val)
+            if got not in {Fraction(x) for x in ok}:
+                bad.append(((v1, v2, v5), got, sorted(ok)))
+    except (fnread.Undecided, fnread.DivZero) as e:
+        return run.fail(rule, "os2-version-shape", "the version decision of the OS/2 writer cannot be evaluated (%s)" % e, b.loc(t))
+    if bad:
+        (v1, v2, v5), got, ok = bad[0]
+        run.fail(rule, "os2-version", "the OS/2 writer announces version %s for a table with version1 %s, version2to4 %s, version5 %s; the parts it writes make it version %s: "
+                 "the reader then expects parts that are not there (or skips parts that are)" % (got, "present" if v1 else "absent", "present" if v2 else "absent",
+                                                                                                 "present" if v5 else "absent", "/".join(map(str, ok))), b.loc(t))
+    else:
+        run.ok(rule, "OS/2 writer: version 0 / 1 / 4 / 5 for the four well-formed combinations of optional parts")
+
+
 def check(run, fx, tier, floors=True):
     import ignored
     ignored.run_for(run, fx, 'C15', floors)
@@ -606,6 +676,8 @@ def check(run, fx, tier, floors=True):
         c15_h(run, fx)
     if floors or any(fx.body(p) is not None for p in HDR_WRITERS):
         c15_s(run, fx, floors)
+    if floors:
+        c15_v(run, fx)
     # writers pair placeholders with the data they point at by position (name records and their strings, offsets and sub-tables):
     # both sides of such a zip must come from the collection in the same order
     import zipalign
